@@ -41,14 +41,6 @@ Definition pref_eqb (x y : pref) : bool :=
   | _, _ => false
   end.
 
-Fixpoint nodup_names (l : list name) : bool :=
-  match l with [] => true | x :: t => negb (mem x t) && nodup_names t end.
-
-(* a unit the harness may hand in: positive widths, distinct leaf-level port names, distinct attribute names *)
-Definition wf_unit (u : unit) : bool :=
-  forallb (fun pw => 1 <=? snd pw) (unit_io u) && nodup_names (map fst (unit_io u)) && nodup_names (unit_names u)
-  && negb (Nat.eqb (List.length (unit_io u)) 0).
-
 Definition same_ports (exp got : list (name * Z)) : bool :=
   (zlen exp =? zlen got) && forallb (fun pw => match assoc (fst pw) got with Some w => w =? snd pw | None => false end) exp.
 
